@@ -460,18 +460,60 @@ def parent_map(fn: ast.AST) -> Dict[int, Tuple[ast.AST, str]]:
     return out
 
 
-def guards_of(fn: ast.AST, target: ast.AST, pm=None) -> List[Tuple[ast.AST, str]]:
-    """Enclosing compound statements of `target`, outermost first, as (stmt, branch) with
-    branch in true/false (if), body/orelse (loops), body/handler/orelse/finally (try), body (with)."""
+_EXITS = (ast.Break, ast.Continue, ast.Return)      # `if bad: raise` validations are not reported as guards of what follows
+_POSITIVE: Dict[int, ast.If] = {}
+
+
+def _ends_in_exit(stmts) -> bool:
+    return bool(stmts) and isinstance(stmts[-1], _EXITS)
+
+
+def _positive(g: ast.If, br: str):
+    """(if not X, true/false) is reported as (if X, false/true): one spelling per guard.  The synthetic node is cached so that
+    two calls return the same object."""
+    if isinstance(g, ast.If) and isinstance(g.test, ast.UnaryOp) and isinstance(g.test.op, ast.Not) and br in ("true", "false"):
+        syn = _POSITIVE.get(id(g))
+        if syn is None:
+            syn = ast.If(test=g.test.operand, body=g.orelse, orelse=g.body)
+            ast.copy_location(syn, g)
+            syn._orig = g
+            _POSITIVE[id(g)] = syn
+            _KEEP.append(g)
+        return syn, ("false" if br == "true" else "true")
+    return g, br
+
+
+_KEEP: list = []      # keeps the original nodes alive so that id()-keys stay unique
+
+
+def guards_of(fn: ast.AST, target: ast.AST, pm=None, normal: bool = False) -> List[Tuple[ast.AST, str]]:
+    """Conditions under which `target` executes, outermost first, as (stmt, branch) with branch in true/false (if),
+    body/orelse (loops), body/handler/orelse/finally (try), body (with).
+
+    With normal=True guard clauses count: a statement that follows `if c: <exit>` in the same block runs under `c` false, exactly like the
+    else-branch of `if c: <exit> else: ...`; negated tests are reported positively (`if not x` true == `if x` false)."""
     pm = pm or parent_map(fn)
     out = []
     cur = target
     while id(cur) in pm:
         par, fld = pm[id(cur)]
+        # dominating guard clauses among the earlier statements of the same block (collected innermost-first, like the rest)
+        sibs = getattr(par, fld, None) if isinstance(fld, str) and normal else None
+        if isinstance(sibs, list) and cur in sibs:
+            level = []
+            for prev in sibs[:sibs.index(cur)]:
+                if isinstance(prev, ast.If):
+                    if _ends_in_exit(prev.body) and not prev.orelse:
+                        level.append(_positive(prev, "false"))
+                    elif prev.orelse and _ends_in_exit(prev.orelse) and not _ends_in_exit(prev.body):
+                        level.append(_positive(prev, "true"))
+                    elif prev.orelse and _ends_in_exit(prev.body) and not _ends_in_exit(prev.orelse):
+                        level.append(_positive(prev, "false"))
+            out.extend(level[::-1])
         if par is fn:
             break
         if isinstance(par, ast.If) and fld in ("body", "orelse"):
-            out.append((par, "true" if fld == "body" else "false"))
+            out.append(_positive(par, "true" if fld == "body" else "false") if normal else (par, "true" if fld == "body" else "false"))
         elif isinstance(par, (ast.For, ast.While)) and fld in ("body", "orelse"):
             out.append((par, fld))
         elif isinstance(par, ast.Try) and fld in ("body", "orelse", "finalbody"):
